@@ -2,7 +2,8 @@ import Qhttp.Lemmas.C14Run
 /-
   C14 helper lemmas, part 4: sequential sources before any `stop`.
   `SActive c arr s`: the copy is connected to the source's signals, everything that arrived
-  (`arr`) and was not lost to a failed write has been written, no completion yet.
+  (`arr`, quiet arrivals included) and was not lost to a failed write has been written or still
+  sits in the source's buffer (quiet arrivals since the last read), no completion yet.
   `SFailed c s`: `start()` gave up (a device did not open): error, completion, nothing else ever.
 -/
 namespace Qhttp.C14L
@@ -12,10 +13,9 @@ structure SActive (c : Cfg) (arr : Bytes) (s : St) : Prop where
   connected : s.connected = true
   stopped : s.stopped = false
   pending : s.pending ≠ .nextBlock
-  buffered : s.buffered = []
   nofin : Obs.countP isFin s.log = 0
   pre : written s.log <+: arr
-  opn : s.srcClosed = false → written s.log = arr
+  opn : s.srcClosed = false → written s.log ++ s.buffered = arr
   nowf : c.writeFailAt = none → s.srcClosed = false ∧ Obs.countP isErr s.log = 0
   startok : startFails c = false
 
@@ -37,12 +37,12 @@ theorem cntErr_snoc_ev (l : List Obs) (k : Nat) : Obs.countP isErr (l ++ [Obs.ev
 
 theorem SActive.marker {c : Cfg} {arr : Bytes} {s : St} (h : SActive c arr s) (k : Nat) :
     SActive c arr (C14L.mk s k) := by
-  refine ⟨h.connected, h.stopped, h.pending, h.buffered, ?_, ?_, ?_, ?_, h.startok⟩
+  refine ⟨h.connected, h.stopped, h.pending, ?_, ?_, ?_, ?_, h.startok⟩
   · show Obs.countP isFin (s.log ++ [Obs.ev k]) = 0
     rw [cntFin_snoc_ev]; exact h.nofin
   · show written (s.log ++ [Obs.ev k]) <+: arr
     rw [written_snoc_ev]; exact h.pre
-  · show s.srcClosed = false → written (s.log ++ [Obs.ev k]) = arr
+  · show s.srcClosed = false → written (s.log ++ [Obs.ev k]) ++ s.buffered = arr
     rw [written_snoc_ev]; exact h.opn
   · show c.writeFailAt = none → s.srcClosed = false ∧ Obs.countP isErr (s.log ++ [Obs.ev k]) = 0
     rw [cntErr_snoc_ev]; exact h.nowf
@@ -54,21 +54,21 @@ theorem SFailed.marker {c : Cfg} {s : St} (h : SFailed c s) (k : Nat) : SFailed 
 
 theorem SActive.mono {c : Cfg} {arr : Bytes} {s : St} (h : SActive c arr s) (b : Bytes)
     (hc : s.srcClosed = true) : SActive c (arr ++ b) s := by
-  refine ⟨h.connected, h.stopped, h.pending, h.buffered, h.nofin,
+  refine ⟨h.connected, h.stopped, h.pending, h.nofin,
     h.pre.trans (List.prefix_append _ _), ?_, h.nowf, h.startok⟩
   intro h0; rw [hc] at h0; cases h0
 
-theorem start_init_seq (c : Cfg) (hseq : c.seq = true) : SInv c [] (start c (mk {} 0)) := by
+theorem start_init_seq (c : Cfg) (hseq : c.seq = true) : SInv c [] (start c (mk (init c) 0)) := by
   rw [start_eq]
   cases hsf : startFails c
   · left
     simp only [Bool.false_eq_true, if_false, hseq, if_true]
-    refine ⟨rfl, rfl, by simp, rfl, ?_, ?_, ?_, ?_, hsf⟩
+    refine ⟨rfl, rfl, by simp, ?_, ?_, ?_, ?_, hsf⟩
     · show Obs.countP isFin ([] ++ [Obs.ev 0]) = 0
       simp [cnt_cons]
     · show written ([] ++ [Obs.ev 0]) <+: []
       simp [written]
-    · intro _; show written ([] ++ [Obs.ev 0]) = []
+    · intro _; show written ([] ++ [Obs.ev 0]) ++ [] = []
       simp [written]
     · intro _
       refine ⟨rfl, ?_⟩
@@ -80,47 +80,46 @@ theorem start_init_seq (c : Cfg) (hseq : c.seq = true) : SInv c [] (start c (mk 
     show written ([] ++ [Obs.ev 0] ++ [err, fin]) = []
     simp [written, err, fin]
 
-/-- `onReadyRead` on an active sequential copy whose buffer holds `b` (the piece that just
-    arrived, or nothing for the timer-triggered first call) -/
+/-- `onReadyRead` on an active sequential copy to whose buffer `b` was appended (the piece that
+    just arrived, or nothing for the timer-triggered first call and for the drain at end of data):
+    everything buffered is handed to the destination, the buffer of an open source is empty -/
 theorem onReadyRead_active (c : Cfg) (arr b : Bytes) (s s1 : St) (h : SActive c arr s)
-    (hb : s1.buffered = if s.srcClosed then [] else b) (hcl : s.srcClosed = true → b = [])
+    (hb : s1.buffered = s.buffered ++ b)
     (h1 : s1.connected = s.connected ∧ s1.stopped = s.stopped ∧ s1.srcClosed = s.srcClosed ∧
           s1.log = s.log ∧ s1.pending ≠ .nextBlock) :
-    SActive c (arr ++ b) (onReadyRead c s1) := by
+    SActive c (arr ++ b) (onReadyRead c s1) ∧
+    ((onReadyRead c s1).srcClosed = false → (onReadyRead c s1).buffered = []) := by
   obtain ⟨e1, e2, e3, e4, e5⟩ := h1
   rw [onReadyRead_eq c s1 (by rw [e2]; exact h.stopped)]
   simp only []
-  have hdata : (if s1.srcClosed = true then [] else s1.buffered) = b := by
-    rw [e3, hb]
-    cases hc : s.srcClosed
-    · simp
-    · simp [hcl hc]
-  rw [hdata, e4]
+  rw [e4, e3, hb]
   cases hf : (c.writeFailAt == some s1.writes)
   · simp only [Bool.false_eq_true, if_false, Bool.or_false]
-    have hw : written (s.log ++ wr b) = written s.log ++ b := by rw [written_append, written_wr]
-    refine ⟨by show s1.connected = true; rw [e1]; exact h.connected,
-            by show s1.stopped = false; rw [e2]; exact h.stopped, e5, ?_, ?_, ?_, ?_, ?_, h.startok⟩
-    · show (if s1.srcClosed = true then s1.buffered else []) = []
-      rw [e3, hb]; cases s.srcClosed <;> simp
-    · show Obs.countP isFin (s.log ++ wr b) = 0
+    refine ⟨⟨by show s1.connected = true; rw [e1]; exact h.connected,
+            by show s1.stopped = false; rw [e2]; exact h.stopped, e5, ?_, ?_, ?_, ?_, h.startok⟩, ?_⟩
+    · show Obs.countP isFin (s.log ++ wr _) = 0
       rw [cnt_append, h.nofin, wr_fin]
-    · show written (s.log ++ wr b) <+: arr ++ b
-      rw [hw]
+    · show written (s.log ++ wr _) <+: arr ++ b
+      rw [written_append, written_wr]
       cases hc : s.srcClosed
-      · rw [h.opn hc]; exact List.prefix_refl _
-      · rw [hcl hc, List.append_nil, List.append_nil]; exact h.pre
-    · show s1.srcClosed = false → written (s.log ++ wr b) = arr ++ b
-      rw [e3]; intro hc; rw [hw, h.opn hc]
-    · show c.writeFailAt = none → s1.srcClosed = false ∧ Obs.countP isErr (s.log ++ wr b) = 0
+      · simp only [Bool.false_eq_true, if_false]
+        rw [← List.append_assoc, h.opn hc]; exact List.prefix_refl _
+      · simp only [if_true, List.append_nil]
+        exact h.pre.trans (List.prefix_append _ _)
+    · show s.srcClosed = false → written (s.log ++ wr _) ++ _ = arr ++ b
+      intro hc
+      rw [written_append, written_wr]
+      simp only [hc, Bool.false_eq_true, if_false, List.append_nil]
+      rw [← List.append_assoc, h.opn hc]
+    · show c.writeFailAt = none → s.srcClosed = false ∧ Obs.countP isErr (s.log ++ wr _) = 0
       intro hn
-      rw [e3, cnt_append, wr_err]
+      rw [cnt_append, wr_err]
       exact h.nowf hn
+    · show s.srcClosed = false → _
+      intro hc; simp [hc]
   · simp only [if_true, Bool.or_true]
-    refine ⟨by show s1.connected = true; rw [e1]; exact h.connected,
-            by show s1.stopped = false; rw [e2]; exact h.stopped, e5, ?_, ?_, ?_, ?_, ?_, h.startok⟩
-    · show (if s1.srcClosed = true then s1.buffered else []) = []
-      rw [e3, hb]; cases s.srcClosed <;> simp
+    refine ⟨⟨by show s1.connected = true; rw [e1]; exact h.connected,
+            by show s1.stopped = false; rw [e2]; exact h.stopped, e5, ?_, ?_, ?_, ?_, h.startok⟩, ?_⟩
     · show Obs.countP isFin (s.log ++ [err]) = 0
       rw [cnt_append, h.nofin]; simp [cnt_cons]
     · show written (s.log ++ [err]) <+: arr ++ b
@@ -128,6 +127,7 @@ theorem onReadyRead_active (c : Cfg) (arr b : Bytes) (s s1 : St) (h : SActive c 
       exact h.pre.trans (List.prefix_append _ _)
     · intro hc; cases hc
     · intro hn; rw [hn] at hf; cases hf
+    · intro hc; cases hc
 
 theorem step_sinv (c : Cfg) (hseq : c.seq = true) (arr : Bytes) (s : St) (k : Nat) (e : Ev)
     (he : e ≠ .start ∧ e ≠ .stop ∧ e ≠ .eof) (h : SInv c arr s) :
@@ -149,9 +149,9 @@ theorem step_sinv (c : Cfg) (hseq : c.seq = true) (arr : Bytes) (s : St) (k : Na
           simp only [step]; rw [hp]
         rw [this]
         left
-        have := onReadyRead_active c arr [] (mk s k) { mk s k with pending := .none } hm
-          (by show (mk s k).buffered = _; rw [hm.buffered]; split <;> rfl) (fun _ => rfl)
-          ⟨rfl, rfl, rfl, rfl, by simp⟩
+        have := (onReadyRead_active c arr [] (mk s k) { mk s k with pending := .none } hm
+          (by show (mk s k).buffered = _; rw [List.append_nil])
+          ⟨rfl, rfl, rfl, rfl, by simp⟩).1
         rwa [List.append_nil] at this
     · rw [step_turn_done c s k h.pending]; exact Or.inr (h.marker k)
   | arrive b =>
@@ -163,9 +163,9 @@ theorem step_sinv (c : Cfg) (hseq : c.seq = true) (arr : Bytes) (s : St) (k : Na
       · have : step c (mk s k) (.arrive b) = onReadyRead c { mk s k with buffered := (mk s k).buffered ++ b } := by
           simp only [step, hseq, hc, hm.connected]; simp
         rw [this]
-        exact onReadyRead_active c arr b (mk s k) { mk s k with buffered := (mk s k).buffered ++ b } hm
-          (by show (mk s k).buffered ++ b = _; rw [hm.buffered, hc]; simp) (fun h0 => by rw [hc] at h0; cases h0)
-          ⟨rfl, rfl, rfl, rfl, hm.pending⟩
+        exact (onReadyRead_active c arr b (mk s k) { mk s k with buffered := (mk s k).buffered ++ b } hm
+          rfl
+          ⟨rfl, rfl, rfl, rfl, hm.pending⟩).1
       · have : step c (mk s k) (.arrive b) = mk s k := by simp [step, hc]
         rw [this]
         exact hm.mono b hc
@@ -178,6 +178,32 @@ theorem step_sinv (c : Cfg) (hseq : c.seq = true) (arr : Bytes) (s : St) (k : Na
         rw [this]
         exact ⟨hm.connected, hm.pending, hm.closed, hm.wr, hm.fails⟩
       · have : step c (mk s k) (.arrive b) = mk s k := by simp [step, hc]
+        rw [this]; exact hm
+  | arriveQ b =>
+    simp only [pieceOf]
+    rcases h with h | h
+    · have hm := h.marker k
+      left
+      cases hc : (mk s k).srcClosed
+      · have : step c (mk s k) (.arriveQ b) = { mk s k with buffered := (mk s k).buffered ++ b } := by
+          simp [step, hseq, hc]
+        rw [this]
+        refine ⟨hm.connected, hm.stopped, hm.pending, hm.nofin, hm.pre.trans (List.prefix_append _ _), ?_,
+          hm.nowf, hm.startok⟩
+        intro _
+        show written (mk s k).log ++ ((mk s k).buffered ++ b) = arr ++ b
+        rw [← List.append_assoc, hm.opn hc]
+      · have : step c (mk s k) (.arriveQ b) = mk s k := by simp [step, hc]
+        rw [this]
+        exact hm.mono b hc
+    · right
+      have hm := h.marker k
+      cases hc : (mk s k).srcClosed
+      · have : step c (mk s k) (.arriveQ b) = { mk s k with buffered := (mk s k).buffered ++ b } := by
+          simp [step, hseq, hc]
+        rw [this]
+        exact ⟨hm.connected, hm.pending, hm.closed, hm.wr, hm.fails⟩
+      · have : step c (mk s k) (.arriveQ b) = mk s k := by simp [step, hc]
         rw [this]; exact hm
 
 theorem runFrom_sinv (c : Cfg) (hseq : c.seq = true) :
@@ -218,8 +244,8 @@ theorem run_seq_eof (c : Cfg) (hseq : c.seq = true) (r : List Ev)
   have hrun : run c (.start :: (r ++ [.eof])) =
       step c (mk (run c (.start :: r)) (r.length + 1)) .eof := by
     rw [run_eq, run_eq, ← List.cons_append, runFrom_append]
-    have hk := runFrom_counter c (.start :: r) {} 0
-    generalize runFrom c ({}, 0) (.start :: r) = sk at hk ⊢
+    have hk := runFrom_counter c (.start :: r) (init c) 0
+    generalize runFrom c (init c, 0) (.start :: r) = sk at hk ⊢
     obtain ⟨s, k⟩ := sk
     simp only [Nat.zero_add, List.length_cons] at hk; subst hk
     rfl
@@ -228,20 +254,44 @@ theorem run_seq_eof (c : Cfg) (hseq : c.seq = true) (r : List Ev)
   generalize r.length + 1 = k
   rcases hinv with h | h
   · have hm := h.marker k
-    have hst : step c (mk s k) .eof = { mk s k with log := (mk s k).log ++ [fin] } := by
-      simp [step, hseq, hm.connected, onReadChannelFinished, hm.buffered]
+    -- what remains in the buffer (quiet arrivals) is drained first
+    have hdrain : ∃ s2 : St, step c (mk s k) .eof = { s2 with log := s2.log ++ [fin] } ∧
+        SActive c (arrived r) s2 ∧ (s2.srcClosed = false → s2.buffered = []) := by
+      have hst : step c (mk s k) .eof = onReadChannelFinished c (mk s k) := by
+        simp [step, hseq, hm.connected]
+      rw [hst]
+      unfold onReadChannelFinished
+      simp only []
+      split
+      · rename_i hcond
+        have := onReadyRead_active c (arrived r) [] (mk s k) (mk s k) hm (by rw [List.append_nil])
+          ⟨rfl, rfl, rfl, rfl, hm.pending⟩
+        rw [List.append_nil] at this
+        exact ⟨_, rfl, this.1, this.2⟩
+      · rename_i hcond
+        refine ⟨_, rfl, hm, ?_⟩
+        intro hc
+        simp only [hc, Bool.not_false, Bool.true_and, bne_iff_ne, ne_eq, Decidable.not_not,
+          List.length_eq_zero_iff] at hcond
+        exact hcond
+    obtain ⟨s2, hst, h2, hbuf⟩ := hdrain
     rw [hst]
-    have hw : written ((mk s k).log ++ [fin]) = written (mk s k).log := by
+    have hw : written (s2.log ++ [fin]) = written s2.log := by
       rw [written_append, written_fin, List.append_nil]
-    refine ⟨Closed.of_snoc_fin hm.nofin, by show written ((mk s k).log ++ [fin]) <+: _; rw [hw]; exact hm.pre, ?_⟩
+    refine ⟨Closed.of_snoc_fin h2.nofin, by show written (s2.log ++ [fin]) <+: _; rw [hw]; exact h2.pre, ?_⟩
     intro hnf
     have hwf : c.writeFailAt = none := by
       simp only [anyFault, Bool.or_eq_false_iff] at hnf
       cases hh : c.writeFailAt <;> simp_all
-    obtain ⟨hc, he⟩ := hm.nowf hwf
-    refine ⟨by show written ((mk s k).log ++ [fin]) = _; rw [hw]; exact hm.opn hc, ?_, _, rfl⟩
-    show Obs.countP isErr ((mk s k).log ++ [fin]) = 0
-    rw [cnt_append, he]; simp [cnt_cons]
+    obtain ⟨hc, he⟩ := h2.nowf hwf
+    refine ⟨?_, ?_, _, rfl⟩
+    · show written (s2.log ++ [fin]) = _
+      rw [hw]
+      have := h2.opn hc
+      rw [hbuf hc, List.append_nil] at this
+      exact this
+    · show Obs.countP isErr (s2.log ++ [fin]) = 0
+      rw [cnt_append, he]; simp [cnt_cons]
   · have hm := h.marker k
     have hst : step c (mk s k) .eof = mk s k := by
       simp [step, hseq, hm.connected]
